@@ -6,15 +6,70 @@ ROOT = Path(__file__).resolve().parent.parent
 PROPS = [json.loads(l)["id"] for l in open(ROOT / "properties.jsonl")]
 
 # pid -> (category, technique, level text, level note, design ref)
+MC = "model_checking"
+TB = "Trusted: TLC 1.8; the projection alpha (harness/corpus.py, unit of trust for ids / ranks / membership classes); "
+POPNOTE = TB + "the harness's own objective and membership oracles; tasks/configurations/seeds are sampled, the mechanism model is exhaustive. Known findings are keyed by optimizer + clause + site."
 CLAIMS = {
- "C16": ("model_checking",
-         "TLC exhaustive on Select.tla + TLC-generated cases replayed into the real helpers + TLC trace judge (TraceSelect.tla)",
-         "TLC checks the code-shaped functional refinement of every selection helper / replacement primitive against the "
-         "relational laws for every population of the bounded space (sizes 1..5(6), 5(4)-letter cost alphabet with ties, "
-         "negatives, +-inf, all n, both directions); the same states are dumped, fed to the real helpers, and the answers "
-         "are judged by TLC with the same relations; three deviation configs and corrupted-record canaries show the laws bind.",
-         "Trusted: TLC; the index tagging of agents; larger populations are sampled. NaN costs excluded.",
-         "DESIGN.md §4.2, §6 C16"),
+ "C01": (MC, "TLC on PopMachine.tla (Feasible inductive for every raw candidate incl. out-of-range/NaN, every step kind) + TLC trace validation (TracePop.tla) of real runs of all 84 optimizers",
+         "The design-level invariant Feasible is model-checked over all candidates/step kinds/directions with two deviation configs that must fail; every agent of every generation and best_solution of a seeded corpus of real runs (all optimizers, encodings, bound regimes, modes) is judged by TLC through membership classes computed from the task descriptor.",
+         POPNOTE, "DESIGN.md 4.4, 6 C01"),
+ "C02": (MC, "TLC on PopMachine.tla (CostTruth) and Domain.tla (PermConsistency) + TLC trace validation of real runs: cost = objective(position) on exact ranks, two oracles, decode oracle",
+         "CostTruth is inductive in the run machine (sign handled at two points; stale-cost and sign-slip deviations fail); on real runs every reported cost is compared bit-exactly (on negation-preserving ranks) with the harness objective re-evaluated at the reported position, with the value observed during the run, and with the objective of the decoded solution; fitness formula is a numeric leaf.",
+         POPNOTE, "DESIGN.md 4.4, 6 C02"),
+ "C03": (MC, "TLC on PopMachine.tla (BestOK; wrong-end deviation fails) + TLC trace validation of best_solution against the last generation of real runs",
+         "BestIsOptimum is checked for every final population of the bounded model (ties, both directions) and on every real run of the corpus: member of the last generation, nothing strictly better in the task's direction.",
+         POPNOTE, "DESIGN.md 6 C03"),
+ "C04": (MC, "TLC exhaustive on StopRule.tla (+ liveness) + every terminal behaviour replayed into the real optimize() through a scripted optimizer + TLC judge (TraceStop.tla); corpus runs judged with the same rule",
+         "The code-shaped stop machine is checked against the declarative rule for ALL rate histories up to the bound (max_cycles<=4(5), 4(5) rate levels, fitness_error, patience 1..3, min_delta levels) incl. termination under fairness; each terminal behaviour is replayed bit-exactly (dyadic rates) into the real loop and judged; off-grid float histories go through the Boolean projection; six deviations fail.",
+         TB + "rates on the grid are exact dyadic floats; rate=|1-mean fitness| recomputed by the harness (1e-12).", "DESIGN.md 4.3, 6 C04"),
+ "C05": (MC, "TLC on PopMachine.tla (ArgsOK over every evaluation incl. discarded candidates; NaN-pass deviation fails) + TLC trace validation of every recorded objective call of real runs (serial/thread/process)",
+         "Every argument the user's objective received during every corpus run (recorded in-process or through per-process O_APPEND logs) is classified against the task descriptor and judged by TLC; violations are keyed by optimizer, calling site and class.",
+         POPNOTE, "DESIGN.md 6 C05"),
+ "C06": ("exploration", "wide seeded exploration of (optimizer, task, configuration, mode) judged by the TLC run machine (a trace ending in a crash is not a behaviour); validation lattice replayed on call histories",
+         "Seeded exploration: every failure of optimize() on a continuous task is a violation keyed by (optimizer, exception, raising function); on integer-coded tasks a (optimizer, encoding) pair must not fail in at least half of its runs (suspects are re-run with fresh inputs before the verdict). Invalid calls (no configuration, bad dictionaries) are covered by the Instance histories (C18).",
+         "Input space sampled, not enumerated. The known-findings table was built from >400k surveyed runs; a crash key never seen before is reported as a violation.", "DESIGN.md 6 C06, 7"),
+ "C07": (MC, "TLC on Instance.tla (RunFunctional over all call histories; stdlib-RNG and unseeded deviations fail) + histories replayed on the 84 real classes + reference runs in fresh interpreters + TLC judge (TraceInstance.tla)",
+         "Reproducibility is the invariant 'result is a function of (configuration, task incl. seed)' over all interleavings of runs and RNG perturbations; the histories TLC enumerates are replayed on every class with the library's own integer Task.seed, compared (bit-exact digests) with runs made in freshly spawned interpreters.",
+         TB + "digest = sha1 of repr of every position/cost/fitness/rate; 2 configurations x 2 tasks per class.", "DESIGN.md 4.6, 6 C07"),
+ "C08": (MC, "TLC on Instance.tla (RunFunctional / ResultsImmutable across Optimize.Optimize; no-reset, private-leak, aliased-rates deviations fail) + histories replayed on the 84 real classes + TLC judge",
+         "Every call history with 0..3 earlier runs (same / other task, other configuration, perturbations in between) up to the bound is generated by TLC; a covering subset + seeded sample (quick) or all of them (thorough) is replayed on every class and each run on a used instance is compared with a fresh-instance reference; earlier results must stay unchanged.",
+         TB + "digests as for C07.", "DESIGN.md 4.6, 6 C08"),
+ "C09": (MC, "TLC on Instance.tla (CallerUntouched action property; config-writing deviation fails) + TLC trace validation: model_dump digests of config and task before/after every corpus run (returning or raising)",
+         "CallerUntouched is an action property of the life-cycle model; on every real run of the corpus and of the replayed histories the caller's configuration and task are dumped before and after and compared field by field.",
+         POPNOTE, "DESIGN.md 6 C09"),
+ "C10": (MC, "TLC on Select.tla (sizes of every primitive incl. groups + residual) and PopMachine.tla (SizeInv; drop-agent deviation fails) + TLC trace validation of every generation of real runs at 1x..3x scale",
+         "Size conservation of the primitives is exhaustive in Select.tla (LawSizes, LawGroups with non-divisible sizes); every recorded generation of every corpus run is judged (exact for all but the three variable-size optimizers).",
+         POPNOTE, "DESIGN.md 6 C10"),
+ "C11": (MC, "TLC on Pool.tla (all interleavings of Submit/Start/Finish/Gather; forked-RNG, dropped and duplicated future deviations fail) + every gathering order forced on the real code through a controllable executor + real pools with injected delays judged by TLC (TracePool.tla)",
+         "ExactlyOnce / NeverTwice / DistinctDraws / ScheduleIndependentSet hold for every interleaving of <=4(5) items on 3 workers; each order TLC reaches is forced on the real _generate_agents and _greedy_select_population; real thread and process pools (1..16 workers, seeded delays) are checked for multiset equality of evaluations and agents and pairwise distinct random points; pooled-mode corpus runs inherit the C01/C02/C03/C10 verdicts.",
+         TB + "the OS scheduler is perturbed, not controlled, in the real-pool part; the forced-order part is exhaustive for 2..4 items.", "DESIGN.md 4.5, 6 C11"),
+ "C12": (MC, "TLC on Dual.tla (two runs in lock-step; fitness-reading step and two sign deviations fail) + TLC judge (TraceDual.tla) of real (max f) / (min -f) pairs for the 83 fitness-free optimizers",
+         "The duality is an invariant of the lock-step model for every step kind that compares internal costs; real pairs of runs with equal seed/configuration are compared generation by generation: identical positions, exactly negated costs (negation-preserving ranks).",
+         TB + "pairs are sampled; the exclusion table (AntLion) is cross-checked by an AST scan.", "DESIGN.md 4.7, 6 C12"),
+ "C13": (MC, "TLC exhaustive on Domain.tla + every enumerated (definition, value) replayed on the real variable classes + TLC judge (TraceDomain.tla) + seeded off-grid values",
+         "The domain laws (into the domain, members fixed, idempotent, decode consistent, constructors reject invalid definitions) are relations checked on intended functional refinements for all definitions x probe values of the bounded grid (four deviations fail); the same cases are fed to the real classes and their answers judged by TLC; huge / subnormal / numpy-scalar / one-ulp values go through a Boolean projection.",
+         TB + "value encoding x2 half-integers + sentinels; off-grid values sampled.", "DESIGN.md 4.1, 6 C13"),
+ "C14": (MC, "TLC exhaustive on Domain.tla (task composition) + every enumerated variable list x position pattern replayed on the real Task + TLC judge",
+         "Dimension, per-coordinate bounds, random / corrected solutions and transform_solution are judged for every list of 1..2 (3 in thorough) variables from a 13-entry palette covering all seven types, size-1 multi-variables and a single permutation, under 7 position patterns.",
+         TB + "one known finding (permutation mixed with other variables) is listed.", "DESIGN.md 4.1, 6 C14"),
+ "C15": (MC, "TLC on PopMachine.tla (HistoryAppendOnly = IsPrefix action property, HistoryFaithful; in-place mutation deviation fails) + TLC trace validation: independent per-cycle deep snapshots vs result.evolution; trend utilities judged with SelectRel",
+         "History fidelity is an action property of the run machine; on real runs every generation of the returned history is compared by TLC with a deep snapshot taken right after its cycle. The trend utilities are judged against 'idx-th best in the task's direction' for every result of the corpus.",
+         POPNOTE, "DESIGN.md 6 C15"),
+ "C16": (MC, "TLC exhaustive on Select.tla + TLC-generated cases replayed into the real helpers + TLC trace judge (TraceSelect.tla)",
+         "TLC checks the code-shaped functional refinement of every selection helper / replacement primitive against the relational laws for every population of the bounded space (sizes 1..5(6), 5(4)-letter cost alphabet with ties, negatives, +-inf, all n, both directions, groups with residual); the same states are dumped, fed to the real helpers, and the answers judged by TLC with the same relations; four deviation configs and corrupted-record canaries show the laws bind.",
+         TB + "agents are identified by a tag in their position; larger populations are sampled. NaN costs excluded.", "DESIGN.md 4.2, 6 C16"),
+ "C17": (MC, "TLC on PopMachine.tla (ElitistMonotone action property for elitist step kinds; inverted-comparison deviation fails) + TLC trace validation of consecutive generations of real runs of the optimizers classified structurally elitist",
+         "Monotonicity of the best internal cost is an action property for greedy / greedy-population / extend-and-trim steps; on real runs of the 63 optimizers claimed elitist every consecutive pair of snapshots and best_solution (best ever recorded) are judged, min and max.",
+         POPNOTE + " The elitism table is conservative (DESIGN.md Appendix A).", "DESIGN.md 6 C17"),
+ "C18": (MC, "TLC on Instance.tla (CanConstructEmpty, NoConfigRefuses, SetConfigEquals, SetConfigRunEquals; constructor-deref and cached-at-construction deviations fail) + histories replayed on the 84 real classes + TLC judge",
+         "Construct(None) / Optimize-without-config / SetConfig(valid | out-of-range) / run-equivalence histories generated by TLC are replayed on every exported class; configuration equality and bit-exact run digests are judged by TLC.",
+         TB + "out-of-range dictionaries are found per class by probing the config model.", "DESIGN.md 6 C18"),
+ "C19": (MC, "TLC exhaustive on HyperTuner.tla (ParameterGrid laws + selection rule) + every grid / score table replayed on the real ParameterGrid / HyperTuner with a scripted optimizer + TLC judge (TraceTuner.tla)",
+         "len / iteration / indexing agreement for all grids of 1..2 sub-grids x 0..3 keys x 1..3 values; optimality of best_parameters, best_score, every point once per trial with its own parameters and resolve() for score tables (<=3 points x 2 trials, ties, both directions) run through the real process pool of the tuner.",
+         TB + "the scripted optimizer hands out trial slots through O_EXCL files; best_score compared within 1e-12.", "DESIGN.md 4.8, 6 C19"),
+ "C20": (MC, "TLC exhaustive on Multitask.tla (broadcasting of `modes`) + generated (n, m, modes) cases run on the real Multitask with scripted optimizers/tasks + TLC judge (TraceMulti.tla)",
+         "Acceptance/rejection and the mode table for n, m in 1..3 and every tuple of 0..9 mode values (3.1M cases) in the model; the real Multitask is run on a covering sample (all of the valid-shape cases in thorough): every pair x n_trials, designated mode, workers, table shapes, export layout for all three formats.",
+         TB + "algorithms/tasks are scripted classes logging through O_APPEND files.", "DESIGN.md 4.8, 6 C20"),
 }
 NOT_YET = "check not built yet in this round (work in progress; see DESIGN.md §10 plan)"
 
